@@ -324,7 +324,7 @@ def read_cgsmiles(pattern):
             #================================================
             #     bond orders for after branches            #
             #================================================
-                if pattern[eon_b] in symbol_to_order:
+                if eon_b < len(pattern) and pattern[eon_b] in symbol_to_order:
                     prev_bond_order = symbol_to_order[pattern[eon_b]]
             elif eon_a+1 < len(pattern) and pattern[eon_a+1] in symbol_to_order:
                 prev_bond_order = symbol_to_order[pattern[eon_a+1]]
